@@ -3,7 +3,8 @@ Decided statically: L-rc for every k-mer type (base j <- complement of base K-1-
 follow from the lane map), the canonical-form decision tables (min_rc, min_rc_flip, is_palindrome over ord(self, rc)),
 Lmer::rc for every capacity and length, the 8-bit lemmas for Exts::complement/reverse/rc and the 2-bit complement,
 DnaString::rc's element map, the DnaStringSlice remap tables (get / get_kmer / slice / rc under the is_rc flag), and the exact
-conversion lemmas of views on a symbolic backing string (to_owned / bytes / renderings / == of reverse-complemented views)."""
+conversion lemmas of views on a symbolic backing string (to_owned / bytes / renderings / == of reverse-complemented views).
+Added later: store k-mer lemmas (both sides of the commutation with k-mer extraction)."""
 from .. import lemmas, structural, dt, dt_seq
 from . import common
 
